@@ -64,7 +64,10 @@ class AddonPersistence(Addon, metaclass=abc.ABCMeta):
                 self.log_warning("Disabling persistent state due to an error")
                 self.persistent = False
             raise
-        if self.persistent and self.sync_state:
+        if self.persistent and self.sync_state and self.is_initialized():
+            # (a not yet initialized block has nothing to save - this happens when a conditional
+            # event resolves to no event before the initialization - and its previously saved state
+            # must be left intact, because it has not been restored yet)
             self.save_persistent_state()
         return retval
 
